@@ -101,7 +101,7 @@ Qed.
 
 Lemma notify_frame w p a body p' o cl :
   notify_w w p a body = (p', o, cl) ->
-  p_id p' = p_id p /\ p_key p' = p_key p /\ p_chars p' = p_chars p /\ p_psn p' = p_psn p.
+  p_id p' = p_id p /\ p_key p' = p_key p /\ p_chars p' = p_chars p /\ p_psn p' = p_psn p /\ p_sig p' = p_sig p.
 Proof.
   unfold notify_w. destruct (p_key p) eqn:Ek; [|intros H; inversion H; subst; repeat split; congruence].
   destruct (p_sn p) eqn:Es; [|intros H; inversion H; subst; repeat split; congruence].
@@ -113,7 +113,7 @@ Qed.
 
 Lemma deliver_calls p pt o cl :
   deliver p pt = (o, cl) ->
-  (cl = [] /\ exists ck, o = OCrash ck) \/
+  (cl = [] /\ exists ck, o = OUndelivered ck) \/
   (exists f v, find_char (iid_of pt) (p_chars p) = Some f /\ from_bytes f (value_of pt) = inr v /\
                o = OAccepted /\ cl = [(p_id p, 1, iid_of pt, v)]).
 Proof.
@@ -175,8 +175,8 @@ Proof.
   intros H. destruct (notify_w w p a body) as [[p' o] cl] eqn:E.
   destruct (list_eq_dec N.eq_dec [] []) as [_|]; [|congruence].
   assert (D : {p' = p} + {p' <> p}).
-  { destruct p as [i k s ps c], p' as [i' k' s' ps' c'].
-    pose proof (notify_frame _ _ _ _ _ _ _ E) as (Hi & Hk & Hc & Hps). cbn in Hi, Hk, Hc, Hps. subst.
+  { destruct p as [i k s ps c sg], p' as [i' k' s' ps' c' sg'].
+    pose proof (notify_frame _ _ _ _ _ _ _ E) as (Hi & Hk & Hc & Hps & Hsg). cbn in Hi, Hk, Hc, Hps, Hsg. subst.
     destruct s as [s|], s' as [s'|]; try (right; congruence); [|now left].
     destruct (N.eq_dec s s'); [left; congruence|right; congruence]. }
   destruct D as [->|Hne].
@@ -221,8 +221,8 @@ Proof.
   assert (D : (exists n pt, fresh_w w p a body n pt) \/ (forall n pt, ~ fresh_w w p a body n pt)).
   { destruct (notify_w w p a body) as [[q o'] cl'] eqn:E'. inversion E; subst.
     assert (Dq : {p' = p} + {p' <> p}).
-    { destruct p as [i k s ps c], p' as [i' k' s' ps' c'].
-      pose proof (notify_frame _ _ _ _ _ _ _ E') as (Hi & Hk & Hc & Hps). cbn in Hi, Hk, Hc, Hps. subst.
+    { destruct p as [i k s ps c sg], p' as [i' k' s' ps' c' sg'].
+      pose proof (notify_frame _ _ _ _ _ _ _ E') as (Hi & Hk & Hc & Hps & Hsg). cbn in Hi, Hk, Hc, Hps, Hsg. subst.
       destruct s as [s|], s' as [s'|]; try (right; congruence); [|now left].
       destruct (N.eq_dec s s'); [left; congruence|right; congruence]. }
     destruct Dq as [->|Hne]; [|left; apply Hiff; now left].
